@@ -33,7 +33,7 @@ claim(
     "C03",
     "Hypothesis property-based testing: exp(log X)=X and log(exp x)=x round trips, principal-log oracle (logm + atan2 rotation log), cross-representation differential of log",
     "Exploration: generated elements of every group/representation (negative-scalar quaternions, shadow MRPs, DCM, Euler) at least 1e-2 rad away from pi; round trips compared as matrices / vectors; the principal cell compares with vee(logm(M(X))) and a harness-side principal rotation log; the crossrep cells encode one rotation into all representations and compare the logs pairwise and with axis*angle.",
-    "Trusts scipy.linalg.logm / mpmath.logm and the harness encoders. Tolerances scale with 1/(pi-angle) and 1+|translations|.",
+    "Trusts scipy.linalg.logm and the harness encoders. Tolerances scale with 1/(pi-angle) and 1+|translations|.",
     "DESIGN.md §3 C03",
 )
 
